@@ -81,7 +81,7 @@ int main(int argc, char** argv) {
   signal(SIGALRM, on_alarm);
   funcadd_ASL(&g_ae);
   if (A.has("--list")) { for (auto& f : g_funcs) printf("%s %d %d\n", f.name.c_str(), f.type, f.nargs); return 0; }
-  int per_case = atoi(A.get("--vectors", "9").c_str());
+  int per_case = atoi(A.get("--vectors", "18").c_str());
   for (long cs = A.from; cs < A.to; ++cs) {
     vf::begin_case(cs);
     vf::Rng r(A.seed, (uint64_t)cs);
@@ -96,14 +96,16 @@ int main(int argc, char** argv) {
     } else for (int v = 0; v < per_case; ++v) {
       int n = F.nargs; std::vector<double> x(n);
       int style = (int)r.below(4); if (F.type == FUNCADD_RANDOM_VALUED && style >= 2 && !r.chance(1, 8)) style = (int)r.below(2);   // 0: all regular, 1: first arg integer-like, 2: mixed with one hostile, 3: all hostile
-      if (v < 4) style = 1;       // systematic part: orders/indices 0,1,2,3 in the first argument (special-cased in many bindings)
+      if (v < 13) style = 1;      // systematic part: orders/indices 0,1,2,3 in the first argument (special-cased in many bindings); then
+                                  // orders 1..3 with the second argument exactly -1, 0, 1 (closed forms at domain edges and zeros)
       for (int i = 0; i < n; ++i) { int cls = style == 0 ? 0 : style == 1 ? (i == 0 ? 1 : 0) : style == 2 ? ((int)r.below(n) == i ? 2 : (int)r.below(2)) : 2; x[i] = pool_value(r, cls); }
       if (v < 4 && n > 0) x[0] = v;
+      else if (v < 13 && n > 1) { x[0] = 1 + (v - 4) % 3; x[1] = (double)((v - 4) / 3 - 1); }
       else if (style == 1 && r.chance(1, 2) && n > 1) { size_t k = r.below(n); x[k] = pool_value(r, 1); }
       bool random_valued = F.type == FUNCADD_RANDOM_VALUED;
       for (int mode = 0; mode < 3; ++mode) {
         std::vector<char> dig(n, 0); bool use_dig = n > 0 && r.chance(1, 3); if (use_dig) for (auto& d : dig) d = (char)r.below(2);
-        if (v < 4 && n > 1) { use_dig = true; std::fill(dig.begin(), dig.end(), 0); dig[0] = 1; }   // the order is a constant (bindings refuse to differentiate it), the rest is differentiated
+        if (v < 13 && n > 1) { use_dig = true; std::fill(dig.begin(), dig.end(), 0); dig[0] = 1; }   // the order is a constant (bindings refuse to differentiate it), the rest is differentiated
         if (random_valued && g_seed_setter) g_seed_setter(g_seed_data, 12345);
         Call c1 = call(F, x, mode, use_dig ? &dig : nullptr); ++calls;
         if (random_valued && g_seed_setter) g_seed_setter(g_seed_data, 12345);
@@ -124,11 +126,13 @@ int main(int argc, char** argv) {
         if (!finite_all || mode == 0) continue;
         for (int i = 0; i < n; ++i) {
           if (use_dig && dig[i]) continue;
+          double edge_side = 0;      // set when the last disagreement was found by the one-sided rule at a domain edge
           auto check_at = [&](const std::vector<double>& xx, int order, int jcol, int& verdict) {
             // verdict: 1 agree, 0 disagree, -1 inconclusive; order 1: d f/dx_i ; order 2: d (df/dx_jcol) / dx_i
             Call cc = call(F, xx, order == 1 ? 1 : 2, use_dig ? &dig : nullptr); ++calls;
             if (cc.has_err) { verdict = -1; return; }
             int lo = std::min(i, jcol), hi = std::max(i, jcol), nn = (int)xx.size(); double analytic = order == 1 ? cc.d[i] : cc.h[lo * (2 * nn - lo - 1) / 2 + hi];   // upper triangle by rows, as test/gsl-test.cc indexes it
+            edge_side = 0;
             double fmax = 0;      // largest sampled magnitude: differences of samples carry rounding noise of about eps*fmax
             auto g = [&](double t, double& out) { std::vector<double> y = xx; y[i] = t; Call q = call(F, y, order == 1 ? 0 : 1, use_dig ? &dig : nullptr); ++calls; if (q.has_err) return false; out = order == 1 ? q.value : q.d[jcol]; if (std::isfinite(out)) fmax = std::max(fmax, std::fabs(out)); return std::isfinite(out); };
             // three step scales: a singularity or a kink closer than the first step (e.g. legendre_Q1 at 1.0014) makes the extrapolation converge to
@@ -147,13 +151,29 @@ int main(int argc, char** argv) {
               if (std::fabs(analytic - num) <= 1e-3 * s + 1000 * err + 1e-8) { best = 1; break; }
               best = 0;
             }
+            if (best == -1) {
+              // domain edge (e.g. legendre_Pl at x = -1: x - h is outside): central differences at two interior points t+d, t+2d on the side
+              // where the binding evaluates, extrapolated linearly to t; only decisive disagreements count (tolerance 2%)
+              for (double side : {1.0, -1.0}) {
+                double d = side * 1e-4 * std::max(1.0, std::fabs(xx[i])); double n1, e1, n2, e2; fmax = 0;
+                if (!ridders(g, xx[i] + d, std::fabs(d) / 2, n1, e1) || !ridders(g, xx[i] + 2 * d, std::fabs(d) / 2, n2, e2) || !std::isfinite(n1) || !std::isfinite(n2)) continue;
+                double ext = 2 * n1 - n2, s = std::max(std::fabs(analytic), std::fabs(ext));
+                if (e1 + e2 > 1e-3 * std::max(s, 1e-8) || 1e-14 * fmax / (std::fabs(d) / 21) > 1e-4 * s) continue;
+                if (std::fabs(n1 - n2) > 0.05 * std::max(std::fabs(n1), std::fabs(n2)) + 1e-8) continue;   // derivative varies too fast near the edge (pole, e.g. lnbeta(-2.5, -0.5)): not judged
+                best = std::fabs(analytic - ext) <= 2e-2 * s + 1e-8 ? 1 : 0;
+                if (best == 0) edge_side = side;
+                break;
+              }
+            }
             verdict = best;
           };
           int v0; check_at(x, 1, 0, v0); ++dchecks;
           if (v0 == -1) ++inconclusive; else if (v0 == 1) ++agree;
           else { // reproduce at neighbouring points
+            bool at_edge = edge_side != 0;
             std::vector<double> xa = x, xb = x; xa[i] *= 1 + 1e-3; xb[i] *= 1 - 1e-3; if (x[i] == 0) { xa[i] = 1e-3; xb[i] = -1e-3; }
             int va, vb; check_at(xa, 1, 0, va); check_at(xb, 1, 0, vb);
+            if (at_edge) { int vc; check_at(x, 1, 0, vc); va = vc; vb = -1; }     // at an edge the neighbours are interior points (other rule): the edge verdict must repeat
             if ((va == 0) + (vb == 0) >= 1) { Call cc = call(F, x, 1, use_dig ? &dig : nullptr); fail("first-derivative-disagrees-with-numerical-differentiation:" + F.name + ":d/dx" + std::to_string(i) + at_point(x, i), show(x) + " d/dx" + std::to_string(i) + " analytic " + vf::jnum(cc.d[i])); }
             else ++inconclusive;
           }
@@ -167,6 +187,28 @@ int main(int argc, char** argv) {
               if ((wa == 0) + (wb == 0) >= 1) fail("second-derivative-disagrees-with-numerical-differentiation:" + F.name + ":d2/dx" + std::to_string(i) + "dx" + std::to_string(j) + at_point(x, i), show(x) + " d2/dx" + std::to_string(i) + "dx" + std::to_string(j));
               else ++inconclusive;
             }
+          }
+        }
+      }
+    }
+    // ---- an argument the binding treats as an integer (the value is a step function of it: bit-identical on [k, k+1) and different from one
+    //      integer to the next, three times in a row) must be refused when it is not an integer, not silently truncated
+    if (F.type != FUNCADD_STRING_VALUED && F.type != FUNCADD_RANDOM_VALUED && F.nargs >= 1) {
+      for (int tries = 0; tries < 6; ++tries) {
+        int n = F.nargs; std::vector<double> x(n); for (int i = 0; i < n; ++i) x[i] = pool_value(r, i == 0 || r.chance(1, 3) ? 1 : 0);
+        for (int i = 0; i < n; ++i) if (x[i] == std::floor(x[i])) { if (x[i] < 0) x[i] = -x[i]; if (x[i] > 20) x[i] = (double)r.range(2, 9); }
+        for (int i = 0; i < n; ++i) {
+          double k0 = (double)r.range(1, 4); double vals[3][3]; bool ok = true;
+          for (int a = 0; a < 3 && ok; ++a) for (int b = 0; b < 3 && ok; ++b) {
+            std::vector<double> y = x; y[i] = k0 + a + (b == 0 ? 0.0 : b == 1 ? 0.3 : 0.7);
+            Call q = call(F, y, 0, nullptr); ++calls;
+            if (q.has_err || !std::isfinite(q.value)) ok = false; else vals[a][b] = q.value;
+          }
+          if (!ok) continue;
+          bool plateau = true; for (int a = 0; a < 3; ++a) if (!same_bits(vals[a][0], vals[a][1]) || !same_bits(vals[a][0], vals[a][2])) plateau = false;
+          if (plateau && vals[0][0] != vals[1][0] && vals[1][0] != vals[2][0] && vals[0][0] != vals[2][0]) {
+            std::vector<double> y = x; y[i] = k0 + 0.7;
+            fail("non-integer-silently-truncated-for-integer-valued-argument:" + F.name + ":x" + std::to_string(i), show(y) + " returns the value at x" + std::to_string(i) + "=" + vf::jnum(k0) + " without an error");
           }
         }
       }
